@@ -145,3 +145,16 @@ def value_eq_cond(ri, rs_minus_base, expect_num, expect_den_pow):
     rs_minus_base and expect_den_pow are python ints (scales relative to a common symbolic base)."""
     M = max(rs_minus_base, expect_den_pow)
     return ri * 10 ** (M - rs_minus_base) == expect_num * 10 ** (M - expect_den_pow)
+
+
+def dec_fields(v):
+    """(integer term, scale term) of a BigDecimal or BigDecimalRef value"""
+    v = S.deref(v)
+    if v.name == 'BigDecimal':
+        return v.fields[0], v.fields[1]
+    if v.name == 'BigDecimalRef':
+        sign, digits, scale = v.fields
+        mag = S.deref(digits)
+        x = -mag if sign.variant == 'Minus' else (0 if sign.variant == 'NoSign' else mag)
+        return x, scale
+    raise ValueError('not a decimal: %r' % (v,))
